@@ -70,6 +70,9 @@ def check(run, prog, tier):
                       "the result", minimum=2)
     c02.rule_P(RuleProxy(run, "C16-L"), prog, rid="C16-L",
                routines=(("quantarhei.qm.liouvillespace.heom.KTHierarchyPropagator", ("propagate", "_initial_state_in_RWA")),), floor=2)
+    run.rule("C16-M", "the system-bath operator of a site projects on all states of that site: the single-state short cut "
+                      "(state index = electronic index) is taken only when the band has as many states as molecules", minimum=2)
+    rule_M(run, prog)
     run.rule("C16-H", "the hierarchy and its propagator read energies under internal units (reorganisation "
                       "energies, Hamiltonian)", minimum=3)
     from . import intunits
@@ -614,6 +617,59 @@ def rule_D(run, prog):
     ok = len(st) == 1 and st[0].startswith("self.ado = numpy.zeros((self.hsize, self.dim, self.dim)")
     run.obligation(rid, "KTHierarchy.reset_ados", ok, key="full-reset",
                    message="reset_ados must replace the whole array by zeros", loc=r.loc())
+
+
+def rule_M(run, prog):
+    """'For uncoupled sites the result converges to exp(-i w t - g(t))': the hierarchy couples bath k through the operator
+    the aggregate built for site k, which has to be the projector on *every* state of the site - its whole vibronic
+    manifold.  Aggregate.build has the general form (`for j in self.vibindices[i]: op.data[j, j] = 1`) and a short cut for
+    purely electronic aggregates (`op.data[i, i] = 1`, which takes the electronic index for the state index).  The short
+    cut is right exactly when the band holds one state per molecule; the accepted guards say so: a comparison of
+    self.Nb[1] with self.nmono (or self.Nbe[1]), or of self.Ntot with self.Nel.  A test of the ground state's sub-levels
+    alone (vibindices[0]) lets through a mode with one level in the ground state and several in the excited state - the
+    baths then act on single vibronic levels."""
+    from ..loader import parents_map
+    rid = "C16-M"
+    ab = prog.cls("quantarhei.builders.aggregate_base.AggregateBase")
+    f = ab.methods.get("_build") or ab.methods["build"]      # build() runs _build() under internal units
+    prog.consulted.add(f.relpath)
+    pm = parents_map(f.node)
+    n = 0
+    for lp in [x for x in walk_no_nested(f.node) if isinstance(x, ast.For) and isinstance(x.target, ast.Name)]:
+        v = lp.target.id
+        creates = [c for c in ast.walk(lp) if isinstance(c, ast.Call) and call_name(c) in ("Operator", "ProjectionOperator")]
+        if not creates:
+            continue
+        diag = [st for st in ast.walk(lp) if isinstance(st, ast.Assign) and isinstance(st.targets[0], ast.Subscript)
+                and norm(st.targets[0].value).endswith(".data") and isinstance(st.targets[0].slice, ast.Tuple)
+                and len(st.targets[0].slice.elts) == 2 and norm(st.targets[0].slice.elts[0]) == norm(st.targets[0].slice.elts[1])]
+        if not diag:
+            continue
+        n += 1
+        idx = norm(diag[0].targets[0].slice.elts[0])
+        general = any(isinstance(x, ast.For) and isinstance(x.iter, ast.Subscript) and norm(x.iter.value) == "self.vibindices"
+                      and isinstance(x.target, ast.Name) and x.target.id == idx for x in ast.walk(lp))
+        if general:
+            run.obligation(rid, "AggregateBase.build", True, key="projector:all-states-of-the-site", message="", loc=f.loc(lp))
+            continue
+        # short cut: the guards on the way to the loop
+        tests = []
+        node = lp
+        while node is not None and node is not f.node:
+            par = pm.get(node)
+            if isinstance(par, ast.If):
+                tests.append((norm(par.test), any(node is x for x in par.orelse)))
+            node = par
+        txt = " ".join(t_ for t_, _ in tests)
+        ok = ("self.Nb[1]" in txt and ("self.nmono" in txt or "self.Nbe[1]" in txt)) or ("self.Ntot" in txt and "self.Nel" in txt)
+        run.obligation(rid, "AggregateBase.build", ok, key="projector:single-state-short-cut",
+                       message="build() takes the short cut `%s` (electronic index used as state index) under the condition(s) %s, which "
+                               "do not say that the one-exciton band has one state per molecule: with a mode that has one level in the "
+                               "ground state and several in the excited state the operators become projectors on single vibronic "
+                               "levels, and the hierarchy dephases those instead of the sites"
+                               % (norm(diag[0]), [t_ if not neg else "not (" + t_ + ")" for t_, neg in tests]), loc=f.loc(diag[0]))
+    if n < 2:
+        raise AnalysisError("C16-M: only %d loops that build site operators found in Aggregate.build (2 confirmed)" % n)
 
 
 def rule_J(run, prog):
